@@ -11,7 +11,7 @@ def run(pid, tier, seed):
         # sequential half (all six types, every history) + scheduled half
         rc1 = props_seq.run_seq_property(pid, tier, seed, write=False)
         seq = dict(props_seq.LAST)
-        rc2 = props_sched.run_sched_property(pid, tier, seed, seq_part=seq)
+        rc2 = props_sched.run_sched_property(pid, tier, seed, seq_part=seq, level=("proof" if pid == "C08" else "other"))
         return 1 if (rc1 or rc2) else 0
     if pid == "C07":
         return props_misc.run_c07(tier, seed)
